@@ -1323,7 +1323,6 @@ Qed.
    back yields exactly that identity, twice *)
 Theorem commit_identity_reads_back : forall e w x msg root,
   sign_ok (user_name (x_l x) (x_g x)) (user_email (x_l x) (x_g x)) (e_time e) (e_off e) ->
-  msg_ok msg ->
   (forall id, am_get (w_refs w) (w_head w) = Some id -> length id = 20%nat) ->
   let sg := mkSign (user_name (x_l x) (x_g x)) (user_email (x_l x) (x_g x)) (e_time e) (e_off e) in
   parse_commit (commit_bytes e x msg w root)
@@ -1331,9 +1330,9 @@ Theorem commit_identity_reads_back : forall e w x msg root,
                    (match am_get (w_refs w) (w_head w) with Some id => [id] | None => [] end)
                    (Some sg) (Some sg) msg).
 Proof.
-  intros e w x msg root Hsg Hmsg Hlen sg. unfold commit_bytes, commit_sig, commit_parent.
+  intros e w x msg root Hsg Hlen sg. unfold commit_bytes, commit_sig, commit_parent.
   pose proof (commit_roundtrip (obj_id KTree root) (am_get (w_refs w) (w_head w))
-                _ _ _ _ _ _ _ _ msg (sha1_length _) Hlen Hsg Hsg Hmsg) as Hrt.
+                _ _ _ _ _ _ _ _ msg (sha1_length _) Hlen Hsg Hsg) as Hrt.
   destruct (am_get (w_refs w) (w_head w)) as [id|]; exact Hrt.
 Qed.
 
